@@ -25,6 +25,7 @@ from .values import (
     js_pow,
     js_parse_int,
     js_parse_float,
+    python_to_js,
 )
 from .errors import JSError, JSTypeError, MemoryLimitError, TimeLimitError
 
@@ -1187,7 +1188,7 @@ class Context:
         """
         self._globals[name] = self._to_js(value)
 
-    def _to_python(self, value: JSValue) -> Any:
+    def _to_python(self, value: JSValue, _seen: Optional[dict] = None) -> Any:
         """Convert a JavaScript value to Python."""
         if value is UNDEFINED:
             return None
@@ -1199,41 +1200,27 @@ class Context:
             return value
         if isinstance(value, str):
             return value
-        if isinstance(value, JSArray):
-            return [self._to_python(elem) for elem in value._elements]
-        if isinstance(value, JSObject):
-            return {k: self._to_python(v) for k, v in value._properties.items()}
+        if isinstance(value, JSObject) and not isinstance(value, JSCallableObject):
+            # An object met again (shared or cyclic) converts to the same Python object
+            if _seen is None:
+                _seen = {}
+            if id(value) in _seen:
+                return _seen[id(value)]
+            if isinstance(value, JSArray):
+                result: Any = []
+                _seen[id(value)] = result
+                result.extend(self._to_python(elem, _seen) for elem in value._elements)
+            else:
+                result = {}
+                _seen[id(value)] = result
+                for k, v in value._properties.items():
+                    result[k] = self._to_python(v, _seen)
+            return result
         return value
 
     def _to_js(self, value: Any) -> JSValue:
         """Convert a Python value to JavaScript."""
-        if value is None:
-            return NULL
-        if isinstance(value, bool):
-            return value
-        if isinstance(value, (int, float)):
-            return value
-        if isinstance(value, str):
-            return value
-        # Already JS values - pass through
-        if isinstance(value, (JSObject, JSFunction, JSCallableObject)):
-            return value
-        if value is UNDEFINED:
-            return value
-        if isinstance(value, list):
-            arr = JSArray()
-            for elem in value:
-                arr.push(self._to_js(elem))
-            return arr
-        if isinstance(value, dict):
-            obj = JSObject()
-            for k, v in value.items():
-                obj.set(str(k), self._to_js(v))
-            return obj
-        # Python callables become JS functions
-        if callable(value):
-            return value
-        return UNDEFINED
+        return python_to_js(value, unknown=UNDEFINED)
 
 
 # Backwards-compatible alias: JSContext was the original name and may be used
